@@ -128,7 +128,7 @@ func vc_C13_savestl_roundtrip() {
 
 // C13: streaming writer == batch writer, cell by cell
 func vc_C13_stream_equals_batch() {
-	pat := [][]int{{0}, {1}, {3}, {2, 1}}[vfCase("n", 4)]
+	pat := [][]int{{0}, {1}, {3}, {2, 1}, {2, 256, 1}, {255, 2}}[vfCase("n", 6)]
 	batches, all := vfMakeBatches(pat, 3)
 	p1, p2 := vfOutPath("c13a.stl"), vfOutPath("c13b.stl")
 	if vfCase("existing", 2) == 1 {
@@ -143,6 +143,9 @@ func vc_C13_stream_equals_batch() {
 	vfAssert(vfFileSize(p1) == vfFileSize(p2), "streaming and batch writers produce files of equal size")
 	vfAssert(vfFileU32(p1, 80) == vfFileU32(p2, 80), "equal count fields")
 	for k := range all {
+		if k >= 4 && k < len(all)-2 && k%97 != 0 {
+			continue // long lists: the symbolic head, the tail and a sample of the concrete middle
+		}
 		for o := 84 + 50*k; o < 84+50*k+48; o += 4 {
 			vfAssert(vfFileF32(p1, o) == vfFileF32(p2, o), "streaming and batch writers produce the same record fields")
 		}
@@ -288,6 +291,7 @@ func vc_C12_layer_batches() {
 func vt_C12_layer_batches_all() { vfLayerBatches(vfCase("ny", 13), vfCase("nz", 31)) }
 
 func vfLayerBatches(ny, nz int) {
+	vfSetCPUs([]int{1, 2, 4}[vfCase("cpus", 3)]) // the worker pool must exist whatever the processor count
 	evalRoutines()
 	l := newLayerYZ(v3.Vec{}, v3.Vec{X: 1, Y: 1, Z: 1}, v3i.Vec{X: 1, Y: ny, Z: nz})
 	var s vfLinear3
